@@ -227,6 +227,14 @@ fn shapes_create_dir_all() -> Vec<Case> {
             }
         }
     }
+    // a regular file where a directory is needed: as the path itself and as its prefix
+    for abs in [false, true] {
+        for extra in [vec![], vec![NameSpec::new(b"n0", 0)], vec![NameSpec::new(b"n0", 0), NameSpec::new(b"n1", 0)]] {
+            for trail in [0u8, 1] {
+                out.push(Case { tree: tree.clone(), ops: vec![Op::CreateDirAll { p: PathSpec { base: 0, want: 1, extra: extra.clone(), abs, trail, dup: 0, pad: Pad::None } }] });
+            }
+        }
+    }
     out
 }
 
@@ -439,19 +447,19 @@ pub fn run(ctx: &Ctx) {
     lap("readdir-shapes");
 
     // random, one family per sub-check
-    ctx.run_prop("create_dir_all", ctx.cases(250, 2_500), case_of(tree(6, 0, 0, 5000), op_cda(), 4), f);
+    ctx.run_prop("create_dir_all", ctx.cases(200, 2_500), case_of(tree(6, 0, 0, 5000), op_cda(), 4), f);
     lap("create_dir_all");
-    ctx.run_prop("copy", ctx.cases(200, 1_600), case_of(tree_with_files(5, big), op_copy(), 4), f);
+    ctx.run_prop("copy", ctx.cases(150, 1_600), case_of(tree_with_files(5, big), op_copy(), 4), f);
     lap("copy");
-    ctx.run_prop("write-read", ctx.cases(200, 1_600), case_of(tree_with_files(5, big), prop_oneof![op_write(big), op_read()], 6), f);
+    ctx.run_prop("write-read", ctx.cases(150, 1_600), case_of(tree_with_files(5, big), prop_oneof![op_write(big), op_read()], 6), f);
     lap("write-read");
-    ctx.run_prop("remove_dir_all", ctx.cases(100, 700), case_of(tree(12, max_many, 1, 5000), op_rda(), 3), f);
+    ctx.run_prop("remove_dir_all", ctx.cases(80, 700), case_of(tree(12, max_many, 1, 5000), op_rda(), 3), f);
     lap("remove_dir_all");
-    ctx.run_prop("readdir", ctx.cases(80, 500), case_of(tree(8, max_many, 2, 5000), op_readdir(), 3), f);
+    ctx.run_prop("readdir", ctx.cases(60, 500), case_of(tree(8, max_many, 2, 5000), op_readdir(), 3), f);
     lap("readdir");
-    ctx.run_prop("rename-misc", ctx.cases(250, 2_000), case_of(tree(10, 40, 1, 5000), op_misc(), 8), f);
+    ctx.run_prop("rename-misc", ctx.cases(200, 2_000), case_of(tree(10, 40, 1, 5000), op_misc(), 8), f);
     lap("rename-misc");
     // mixed histories
-    ctx.run_prop("history", ctx.cases(200, 1_600), case_of(tree(12, max_many, 1, big), op_any(big), 30), f);
+    ctx.run_prop("history", ctx.cases(150, 1_600), case_of(tree(12, max_many, 1, big), op_any(big), 30), f);
     lap("history");
 }
